@@ -169,8 +169,33 @@ def impl_roundtrip(case):
     return ["ok", [text, ["ok", [describe(ci2), again]]]]
 
 
+def _types_seen_by_the_id_parser(doc):
+    """earlier in the process, release ids naming the document's release types were parsed (the parser accepts unknown types;
+    what it has seen must not widen what a document may declare)"""
+    import productmd.common as C
+    found = []
+
+    def walk(o):
+        if isinstance(o, dict):
+            for k, v in o.items():
+                if k == "type" and isinstance(v, str):
+                    found.append(v)
+                walk(v)
+        elif isinstance(o, list):
+            for x in o:
+                walk(x)
+    walk(doc)
+    for t in found:
+        for rid in ("x-1-%s" % t, "x-1-%s@base-7-%s" % (t, t)):
+            try:
+                C.parse_release_id(rid)
+            except Exception:
+                pass
+
+
 def impl_load(case):
     import productmd.composeinfo as CI
+    _types_seen_by_the_id_parser(case["doc"])
     ci = CI.ComposeInfo()
     if case.get("preload"):
         try:
